@@ -368,6 +368,16 @@ func (r *fileRW) stmt(s ast.Stmt, at token.Pos) {
 				}
 			}
 		}
+		if call, ok := s.X.(*ast.CallExpr); ok {
+			if sel, ok := call.Fun.(*ast.SelectorExpr); ok && sel.Sel.Name == "Sleep" {
+				if id, ok := sel.X.(*ast.Ident); ok {
+					if pn, ok := r.info.Uses[id].(*types.PkgName); ok && pn.Imported().Path() == "time" {
+						// goroutines whose sleeps end at the same instant wake together
+						r.insert(s.End(), fmt.Sprintf("; sim.Yield(%q)", r.site("chan")+"'"))
+					}
+				}
+			}
+		}
 		if u, ok := s.X.(*ast.UnaryExpr); ok && u.Op == token.ARROW {
 			site := r.site("chan")
 			r.insert(at, fmt.Sprintf("sim.Yield(%q); ", site))
